@@ -436,6 +436,16 @@ func runC19(o *cli.Opts, run *evid.Run) {
 				verify(s, fmt.Sprintf("%s/tamper/coord%d", base, ci), doc, ref.Num(p0.hash, "hex"), valid, "verify/tampered-coordinate", map[string]any{"mode": s.mode, "coordinate": ci})
 			})
 		}
+		// a coordinate with its sign flipped is not a coordinate: the document is not a valid proof
+		for _, ci := range []int{0, 3, 7} {
+			ci := ci
+			c := c0
+			c[ci] = new(big.Int).Neg(c0[ci])
+			doc := coordsDoc(c)
+			vjobs = append(vjobs, func() {
+				verify(s, fmt.Sprintf("%s/tamper/negated-coord%d", base, ci), doc, ref.Num(p0.hash, "hex"), false, "verify/negated-coordinate", map[string]any{"mode": s.mode, "coordinate": ci})
+			})
+		}
 		swaps := map[string][8]int{"A.x<->A.y": {1, 0, 2, 3, 4, 5, 6, 7}, "B pairs transposed": {0, 1, 3, 2, 5, 4, 6, 7}, "A<->C": {6, 7, 2, 3, 4, 5, 0, 1}, "B.x<->B.y": {0, 1, 4, 5, 2, 3, 6, 7}}
 		for name, perm := range swaps {
 			name := name
@@ -605,6 +615,9 @@ func coordsDoc(c [8]*big.Int) []byte {
 	s := make([]string, 8)
 	for i := range c {
 		s[i] = "0x" + c[i].Text(16)
+		if c[i].Sign() < 0 {
+			s[i] = "-0x" + new(big.Int).Neg(c[i]).Text(16)
+		}
 	}
 	return ref.MustJSON(map[string]any{"ar": []string{s[0], s[1]}, "bs": [][]string{{s[2], s[3]}, {s[4], s[5]}}, "krs": []string{s[6], s[7]}})
 }
